@@ -676,12 +676,10 @@ def text_safe(name: str) -> bool:
 
 
 def kept_out(case: dict) -> bool:
-    """KEPT OUT OF THE GENERATOR FOR NOW - genuine defect of the unchanged pydsdl (reported, not yet fixed or recorded):
-    a message type whose short name ends with white space (file `vendor/Abc .1.0.dsdl`, also TAB or U+00A0) is accepted as
-    `vendor.Abc`, because CompositeType.__init__ strips the full name (`str(name).strip()`) before check_name sees it.
-    Remove this filter (and the call in generate) once that is fixed; the oracle itself is not weakened."""
-    short = case["header"]["short"]
-    return short != short.rstrip() or any(kept_out(x) for x in case.get("history") or [])
+    """Nothing is kept out any more: the input class that used to be excluded here (a short name ending with white space,
+    `vendor/Abc .1.0.dsdl`, accepted as `vendor.Abc` because CompositeType.__init__ stripped the name before check_name saw
+    it) was a genuine defect of pydsdl, repaired in /repo by 5ca71ff and recorded in known_findings.json."""
+    return False
 
 
 def g_sequence(rng) -> dict:
